@@ -4,6 +4,7 @@ import (
 	"fmt"
 	"math/big"
 	"sort"
+	"time"
 
 	cctptypes "github.com/circlefin/noble-cctp/x/cctp/types"
 	ftftypes "github.com/circlefin/noble-fiattokenfactory/x/fiattokenfactory/types"
@@ -158,8 +159,10 @@ func (s *State) JudgeAdmin(a Admin) AdminVerdict {
 // Env is a step of the environment around orbiter.
 type Env struct {
 	// deposit | reescrow | ftf_pause | ftf_unpause | blacklist | unblacklist | burn_limit |
-	// cctp_pause_burn | cctp_unpause_burn | cctp_pause_msgs | cctp_unpause_msgs | hyp_unenroll | hyp_enroll
-	// (the Hyperlane steps use Denom for the token and Amount for the domain)
+	// cctp_pause_burn | cctp_unpause_burn | cctp_pause_msgs | cctp_unpause_msgs | hyp_unenroll | hyp_enroll |
+	// next_block
+	// (the Hyperlane steps use Denom for the token and Amount for the domain; next_block uses Amount
+	// for the number of blocks the chain advances by)
 	Kind    string `json:"kind"`
 	User    string `json:"user,omitempty"`
 	Target  string `json:"target,omitempty"`
@@ -273,6 +276,15 @@ func (m *Machine) Do(s Step) Obs {
 func (m *Machine) doEnv(e Env) world.TxResult {
 	amt, _ := sdkmath.NewIntFromString(e.Amount)
 	switch e.Kind {
+	case "next_block":
+		// The following steps run in a later block: height and time of the execution context
+		// move on (6 s per block), the state stays. Everything before ran "in the same block".
+		n := int64(1)
+		if amt.IsInt64() && amt.Int64() > 0 {
+			n = amt.Int64()
+		}
+		m.Ctx = m.Ctx.WithBlockHeight(m.Ctx.BlockHeight() + n).WithBlockTime(m.Ctx.BlockTime().Add(time.Duration(n) * 6 * time.Second))
+		return world.TxResult{}
 	case "deposit":
 		return m.W.Tx(m.Ctx, &banktypes.MsgSend{
 			FromAddress: world.Addr(e.User).String(), ToAddress: world.OrbiterAddr.String(),
